@@ -125,19 +125,23 @@ def skipZ : Bytes → Option Bytes
 
 def hasFlag (flg : UInt8) (bit : Nat) : Bool := flg.toNat &&& bit != 0
 
+/-- FEXTRA: `xlen = hio_read16l; hio_seek(xlen, SEEK_CUR)` (a seek past the end fails later) -/
+def gzSkipExtra : Bytes → Option Bytes
+  | x0 :: x1 :: r => if u16le x0 x1 ≤ r.length then some (r.drop (u16le x0 x1)) else none
+  | _ => none
+
+/-- FHCRC: `hio_read16l`, value ignored -/
+def gzSkip2 (r : Bytes) : Option Bytes := if 2 ≤ r.length then some (r.drop 2) else none
+
 /-- header parse: returns the bytes that follow the header (deflate stream ++ trailer) -/
 def gzipBody (f : Bytes) : Option Bytes :=
   match f with
   | _id1 :: _id2 :: cm :: flg :: _m0 :: _m1 :: _m2 :: _m3 :: _xfl :: _os :: r0 =>
     if cm ≠ 8 then none else
-    (if hasFlag flg gzFEXTRA then
-       (match r0 with
-        | x0 :: x1 :: r => if u16le x0 x1 ≤ r.length then some (r.drop (u16le x0 x1)) else none
-        | _ => none)
-     else some r0) >>= fun r1 =>
+    (if hasFlag flg gzFEXTRA then gzSkipExtra r0 else some r0) >>= fun r1 =>
     (if hasFlag flg gzFNAME then skipZ r1 else some r1) >>= fun r2 =>
     (if hasFlag flg gzFCOMMENT then skipZ r2 else some r2) >>= fun r3 =>
-    (if hasFlag flg gzFHCRC then (if 2 ≤ r3.length then some (r3.drop 2) else none) else some r3)
+    (if hasFlag flg gzFHCRC then gzSkip2 r3 else some r3)
   | _ => none
 
 /-- the CRC-32 / ISIZE gate of `decrunch_gzip` -/
@@ -190,12 +194,16 @@ def GzOpts.Legal (o : GzOpts) : Prop :=
 def optField (x : Option Bytes) (f : Bytes → Bytes) : Bytes :=
   match x with | none => [] | some b => f b
 
+def hcrcField : Option (UInt8 × UInt8) → Bytes
+  | none => []
+  | some (a, b) => [a, b]
+
 def gzipHeader (o : GzOpts) : Bytes :=
   [0x1f, 0x8b, 8, UInt8.ofNat o.flg] ++ le32 o.mtime ++ [o.xfl, o.os] ++
   optField o.extra (fun e => le16 e.length ++ e) ++
   optField o.name (fun n => n ++ [0]) ++
   optField o.comment (fun c => c ++ [0]) ++
-  (match o.hcrc with | none => [] | some (a, b) => [a, b])
+  hcrcField o.hcrc
 
 /-- a gzip member around the deflate stream `cdata` of payload `p` -/
 def gzipWrap (crc : Bytes → UInt32) (o : GzOpts) (cdata p : Bytes) : Bytes :=
@@ -379,7 +387,7 @@ structure Member where
   cdata : Bytes := []
   usize : Nat := 0
   check : Nat := 0
-  deriving Repr
+  deriving Repr, DecidableEq
 
 /-- the walk shared by decrunch_zip / decrunch_lha / arcfs_read: first member that is a regular,
     supported file whose name is not excluded -/
